@@ -266,8 +266,8 @@ func (x *xl) expr(e ast.Expr) ([]string, string, error) {
 		return nil, s, err
 	}
 	if x.w.dom {
-		if s, ok := x.domNew(e); ok {
-			return nil, s, nil
+		if b, s, ok, err := x.domNew(e); ok || err != nil {
+			return b, s, err
 		}
 	}
 	switch y := e.(type) {
@@ -743,6 +743,9 @@ func (x *xl) call(c *ast.CallExpr) ([]string, string, error) {
 				}
 				if _, ok := t.Underlying().(*types.Slice); ok {
 					return b, "(Go.lenL " + s + ")", nil
+				}
+				if _, ok := t.Underlying().(*types.Map); ok && x.w.dom && domKind(t) == "cont" {
+					return b, "(GoDom.mapLen " + s + ")", nil
 				}
 				return nil, "", x.errf(c, "len of %s", t)
 			case "append":
